@@ -69,6 +69,14 @@ def generate(seed, tier):
         case["u"] = [[round(0.1 + rng.random(), 3) if (k < 2) == (i < half) else 0.0 for k in range(K)] for i in range(N)]
         case["w"] = [[round(0.1 + rng.random(), 3) if a == b else 0.0 for b in range(K)] for a in range(K)]
         case["block_structured"] = True
+    if rng.random() < 0.08 and K >= 2:
+        # purely disassortative model with hard memberships: w has a ZERO diagonal, every node sits in one community
+        K = case["K"]
+        case["u"] = [[round(0.3 + rng.random(), 3) if k == i % K else 0.0 for k in range(K)] for i in range(N)]
+        case["w"] = [[0.0 if a == b else round(0.2 + rng.random(), 3) for b in range(K)] for a in range(K)]
+        case["w"] = [[case["w"][min(a, b)][max(a, b)] for b in range(K)] for a in range(K)]
+        case.pop("block_structured", None)
+        case["disassortative"] = True
     case["max_size"] = rng.randint(2, min(N, 5))
     if rng.random() < 0.25:
         case["exact_dyadic"] = False  # the non-default approximate sampling of the pairwise interactions
